@@ -45,7 +45,14 @@ func c20Bytes(c *admCase) ([]byte, error) {
 	case "pdf":
 		return pdfdoc.BuildSimple([][]pdfdoc.Placed{{{X: 72, Y: 700, Size: 12, Text: c20Token}}}, 612, 792)
 	case "html":
-		return []byte("<!DOCTYPE html>\n<html><head><title>t</title></head><body><p>" + c20Token + "</p></body></html>"), nil
+		title, lead := "t", ""
+		switch c.Decoy {
+		case "magic-pdf":
+			title = "About %PDF-1.7 files"
+		case "magic-zip":
+			lead = "<!-- PK\x03\x04 -->"
+		}
+		return []byte("<!DOCTYPE html>\n" + lead + "<html><head><title>" + title + "</title></head><body><p>" + c20Token + "</p></body></html>"), nil
 	case "docx":
 		ms = docxMembers()
 	case "xlsx":
@@ -88,7 +95,14 @@ func c20Bytes(c *admCase) ([]byte, error) {
 			rest[i], rest[j] = rest[j], rest[i]
 		}
 	}
-	if c.Decoy != "none" {
+	if strings.HasPrefix(c.Decoy, "magic-") {
+		// a stored (uncompressed) first member that carries another format's signature in the clear
+		d := zmember{"attachments/a1.pdf", "%PDF-1.4\n1 0 obj\n<< /Type /Catalog >>\nendobj\n", true}
+		if c.Decoy == "magic-html" {
+			d = zmember{"attachments/a1.html", "<!DOCTYPE html><html><body><p>stray</p></body></html>", true}
+		}
+		rest = append([]zmember{d}, rest...)
+	} else if c.Decoy != "none" {
 		dir := strings.TrimSuffix(c.Decoy, "+rels")
 		ds := []zmember{{dir + "/decoy-unreferenced.xml", `<?xml version="1.0"?><decoy/>`, false}}
 		if strings.HasSuffix(c.Decoy, "+rels") {
